@@ -154,3 +154,28 @@ Proof.
   - split; [repeat constructor; vm_compute; reflexivity|vm_compute; discriminate].
   - split; vm_compute; reflexivity.
 Qed.
+
+(* The required difficulty at a retarget (btcd calcNextRequiredDifficulty as
+   transliterated in S2.Model.next_required) clamps the measured timespan of
+   the period to [minTs, maxTs] = [timespan/4, timespan*4] on BOTH sides:
+   with a target timespan of 40 s, bounds 10 s and 160 s and the old target
+   0x2007ffff, every period of at most 10 s gives old/4 = 0x2001ffff, every
+   period of at least 160 s gives old*4 = 0x201ffffc (below the limit
+   0x207fffff, so it is the clamp that binds), and periods in between scale
+   proportionally (20 s: half, 40 s: unchanged, 100 s: 2.5 times). *)
+Definition cl_P : params :=
+  {| genesis := ex_mk 100 0 1000; powLimit := compactToBig ex_bits; powLimitBits := ex_bits;
+     bpr := 4; minTs := 10; maxTs := 160; targetTs := 40;
+     reduceMinDiff := false; minDiffRedTime := 20; noRetarget := false; bip94 := false;
+     bip34h := 0; bip65h := 0; bip66h := 0; checkpoints := []; memCap := 10 |}.
+Definition cl_hdr (time : Z) : header :=
+  {| hid := 1; hprev := 0; hnum := 0; hbits := 0x2007ffff; htime := time; hver := 4 |}.
+(* the period's first header (height 4) lies [span] seconds before its last (height 7) *)
+Definition cl_required (span : Z) : option Z :=
+  next_required cl_P (fun h => if h =? 4 then Some (cl_hdr (10000 - span)) else None) 7 (cl_hdr 10000) 10010.
+Example C01_retarget_clamps_both_sides :
+  map cl_required [1; 9; 10] = [Some 0x2001ffff; Some 0x2001ffff; Some 0x2001ffff] /\
+  map cl_required [160; 161; 400; 100000] = [Some 0x201ffffc; Some 0x201ffffc; Some 0x201ffffc; Some 0x201ffffc] /\
+  map cl_required [20; 40; 100] = [Some 0x2003ffff; Some 0x2007ffff; Some 0x2013fffd] /\
+  compactToBig 0x201ffffc < powLimit cl_P.
+Proof. vm_compute. repeat split; reflexivity. Qed.
